@@ -8,6 +8,7 @@ import (
 	"fmt"
 	"io"
 	"sort"
+	"strings"
 	"sync/atomic"
 	"testing/synctest"
 	"time"
@@ -31,7 +32,7 @@ import (
 
 func init() {
 	register(&Prop{ID: "C17", Level: "fault_enumeration", Run: runC17, Replay: replayC17,
-		Workers: func(e *Env) int { return len(c17Histories) * c17Shards }, Procs: 1,
+		Workers: func(e *Env) int { return len(c17Tasks(e.Thorough())) }, Procs: 1,
 		Budget: func(t string) time.Duration {
 			if t == "thorough" {
 				return 25 * time.Minute
@@ -59,6 +60,76 @@ var c17Histories = []c17History{
 	{"fill-96-percent", []c17Put{{"a", 240_000}, {"b", 240_000}, {"c", 240_000}, {"d", 239_900}}},
 	{"fill-100-percent-then-put", []c17Put{{"a", 250_000}, {"b", 250_000}, {"c", 250_000}, {"d", 250_000}, {"e", 20_000}}},
 	{"many-small-then-prune", []c17Put{{"a", 45_000}, {"b", 45_000}, {"c", 45_000}, {"d", 45_000}, {"e", 45_000}, {"f", 800_000}, {"g", 45_000}}},
+}
+
+// Generated histories: every sequence of 2 (thorough: 3) puts over 2 ids x 6 sizes, up to
+// renaming of the ids (the first id used is "a"). The sizes are chosen so that two or three
+// of them cross 95% / 100% of the 1 MB capacity in many ways: 400k+600k and 480k+600k cross
+// the capacity, 480k+480k stops at 96%, 400k+480k at 88%, an oversize value exceeds it alone.
+var c17GenSizes = []struct {
+	Name string
+	N    int
+}{{"0", 0}, {"45k", 45_000}, {"400k", 400_000}, {"480k", 480_000}, {"600k", 600_000}, {"over", 1_000_001}}
+
+func c17Generated(depth int) []c17History {
+	var out []c17History
+	var rec func(ops []c17Put, name string)
+	rec = func(ops []c17Put, name string) {
+		if len(ops) == depth {
+			out = append(out, c17History{"gen:" + name[1:], append([]c17Put{}, ops...)})
+			return
+		}
+		for _, id := range []string{"a", "b"} {
+			if len(ops) == 0 && id != "a" {
+				continue // ids are interchangeable: the first one used is "a"
+			}
+			for _, sz := range c17GenSizes {
+				rec(append(ops, c17Put{id, sz.N}), name+","+id+sz.Name)
+			}
+		}
+	}
+	rec(nil, "")
+	return out
+}
+
+func c17HistoryByName(name string) *c17History {
+	for i := range c17Histories {
+		if c17Histories[i].Name == name {
+			return &c17Histories[i]
+		}
+	}
+	for _, depth := range []int{2, 3} {
+		for _, h := range c17Generated(depth) {
+			if h.Name == name {
+				h := h
+				return &h
+			}
+		}
+	}
+	return nil
+}
+
+// c17Task: one worker process explores shard Sh of Of of the crash points of one history.
+type c17Task struct {
+	H      c17History
+	Sh, Of int
+}
+
+func c17Tasks(thorough bool) []c17Task {
+	var ts []c17Task
+	for _, h := range c17Histories {
+		for sh := 0; sh < c17Shards; sh++ {
+			ts = append(ts, c17Task{h, sh, c17Shards})
+		}
+	}
+	depth := 2
+	if thorough {
+		depth = 3
+	}
+	for _, h := range c17Generated(depth) {
+		ts = append(ts, c17Task{h, 0, 1})
+	}
+	return ts
 }
 
 type c17Case struct {
@@ -634,12 +705,14 @@ func runC17(r *mc.Report, e *Env) {
 	r.Rule = "one case = (history, write-op index k, whole | torn to 1 byte | half | all but one byte, loss pattern over the files with unsynced state: all kept | all dropped | per-file mixtures): run the real store on pebble over a strict in-memory FS, freeze every FS operation from the k-th write-kind operation on, copy the tree, reopen with pebble.Open + NewStorage, evaluate the recovery clauses, then two further puts; distinct = distinct (puts started/completed, items, usage, radius) observations"
 	r.Assume("crash model: fail-stop at file-system operation boundaries, or inside one file Write after a prefix of 1 byte / half / all but one byte of its buffer; unsynced state (pebble's strict MemFS) is lost per unit — each file's unsynced tail on its own, the unsynced directory entries (creations, removals, renames) together, in order: all kept, all dropped, and mixtures (thorough: every subset when at most 5 units differ, otherwise and in the quick tier the subsets one unit away from either extreme); quick tier tears with all unsynced data kept only")
 	r.Assume("either byte order of the farthest retained key is accepted as the re-derived radius (which one is C06's question)")
-	for hi := range c17Histories {
-		for sh := 0; sh < c17Shards; sh++ {
-			if e.Of > 1 && e.Shard != hi*c17Shards+sh {
+	tasks := c17Tasks(e.Thorough())
+	r.Set("histories", len(c17Histories)+(len(tasks)-len(c17Histories)*c17Shards))
+	for ti := range tasks {
+		{
+			if e.Of > 1 && e.Shard != ti {
 				continue
 			}
-			h := &c17Histories[hi]
+			h, sh, of := &tasks[ti].H, tasks[ti].Sh, int64(tasks[ti].Of)
 			for _, small := range []bool{false, true} {
 				var n1, n2 int64
 				for try := 0; try < 3; try++ { // fault-free runs: how many write operations are there
@@ -658,8 +731,11 @@ func runC17(r *mc.Report, e *Env) {
 					r.NotExhaustive(fmt.Sprintf("history %s (small=%v): fault-free runs performed between %d and %d write operations", h.Name, small, n2, n1))
 				}
 				if sh == 0 {
-					r.Count(fmt.Sprintf("write_ops_%s_small=%v", h.Name, small), n1)
-					r.Sample(map[string]any{"history": h.Name, "small_memtable": small, "puts": h.Ops, "write_ops": n1})
+					r.Max("max_write_ops_in_a_history", n1)
+					r.Count("crash_points", n1)
+					if !strings.HasPrefix(h.Name, "gen:") || ti%97 == 0 {
+						r.Sample(map[string]any{"history": h.Name, "small_memtable": small, "puts": h.Ops, "write_ops": n1})
+					}
 				}
 				stride := int64(1)
 				if !e.Thorough() && n1 > 150 {
@@ -667,7 +743,7 @@ func runC17(r *mc.Report, e *Env) {
 					r.NotExhaustive("quick tier takes every 2nd crash point of histories with more than 150 write operations")
 				}
 				for k := int64(0); k < n1; k += stride {
-					if k%c17Shards != int64(sh) {
+					if k%of != int64(sh) {
 						continue
 					}
 					if e.Expired() {
@@ -678,7 +754,8 @@ func runC17(r *mc.Report, e *Env) {
 							switch {
 							case d == "not-reached":
 								if tear == 0 {
-									r.EngineError(fmt.Sprintf("history %s: crash point %d was not reached on replay (nondeterministic operation count)", h.Name, k))
+									r.Count("crash_points_not_reached_on_replay", 1)
+									r.NotExhaustive("some crash points beyond the shortest fault-free run were not reached when the history was replayed (pebble's background flush / compaction order is not owned by the explorer)")
 								}
 							case d == "tear-n/a":
 								r.Count("cuts_whose_operation_cannot_be_torn", 1)
@@ -708,9 +785,9 @@ func replayC17(r *mc.Report, e *Env, raw json.RawMessage) {
 	if err := json.Unmarshal(raw, &c); err != nil {
 		panic(err)
 	}
-	for i := range c17Histories {
-		if c17Histories[i].Name == c.History {
-			c17Point(r, &c17Histories[i], c.Small, c.K, c.Tear, true, &c, func(_ c17Case, d string) { fmt.Println("outcome:", d) })
-		}
+	if h := c17HistoryByName(c.History); h != nil {
+		c17Point(r, h, c.Small, c.K, c.Tear, true, &c, func(_ c17Case, d string) { fmt.Println("outcome:", d) })
+	} else {
+		fmt.Println("unknown history", c.History)
 	}
 }
